@@ -4,6 +4,7 @@ from sa.report import Check
 from sa.rules import bounds_rules as R
 from sa.rules import dispatch as D
 from sa.rules import pipeline as P
+from sa.rules import cpp_rules as CPR
 from sa.rules import ranges as RG
 from sa.rules import resolve_rules as RR
 
@@ -41,4 +42,5 @@ def main(tier):
     chk.run("R-CONSTAGREE", R.constagree, cx.repo, floor=3)
     chk.run("R-MODCOMBINE", R.modcombine, cx.repo, floor=4)
     chk.run("R-CHOICECONST", R.choiceconst, cx.repo, floor=2)
+    chk.run("R-MAXARGS", CPR.maxargs, cx.repo, floor=60)
     return chk.finish()
